@@ -482,6 +482,25 @@ def cases_for(pid, tier, rng):
                 if rng.random() < 0.5:
                     p.insert(0, " ORG $1000\n")
                 yield (p, {"kind": "prog", "noncontiguous": True})
+        # an ORG after code that restates the running address (number, EQU symbol or expression): the image is
+        # still contiguous, and its origin is where it starts
+        sized = [("NOP", 1), ("LDA #1", 2), ("LDX #$1234", 3), ("RMB 5", 5), ("FDB 1,2", 4), ("FCC /AB/", 2), ("JMP $2000", 3),
+                 ("LDA <$10", 2), ("CLRA", 1), ("LDA 100,X", 3), ("LBRA START", 3)]
+        for _ in range(120 if q else 3000):
+            base = rng.choice([0x0E00, 0x3000, 0x0020, 0xFF00, 0])
+            head = [" ORG $%04X\n" % base] if (base or rng.random() < 0.5) else []
+            addr = base + 1
+            pre = []
+            for _ in range(rng.randrange(1, 6)):
+                t, n = rng.choice(sized)
+                pre.append(" %s\n" % t)
+                addr += n
+            spell = rng.choice(["$%04X" % addr, "%d" % addr, "HERE", "$%X+0" % addr, "BASE+%d" % (addr - base)])
+            eq = ["HERE EQU $%04X\n" % addr] if spell == "HERE" else ["BASE EQU $%04X\n" % base] if spell.startswith("BASE") else []
+            lines = head + eq + ["START NOP\n"] + pre + [" ORG %s\n" % spell, "DATA FCB $AA\n", " JMP DATA\n"]
+            if rng.random() < 0.3:
+                lines += [" ORG $%04X\n" % (addr + 4), " NOP\n"]
+            yield (lines, {"kind": "prog", "restated_org": True})
     elif pid == "C03":
         for c in asmgen.branch_cases(rng, tier):
             yield c
